@@ -218,7 +218,7 @@ def bad_value(rng):
 
 
 COMMENTS = [None, None, "", "   ", "cut here", "  lead and trail \t", "a ) b ] c } d > e", 'q " r \' s */ t',
-            "x\ny", "x\r\n\r\ny", "sem;colon # hash // slashes", "{} {0} %s", "G1 X9", "é✓  ", "tail\x85"]
+            "x\ny", "x\r\n\r\ny", "lone\rCR M112\rend", "cr\r", "\rlead", "sem;colon # hash // slashes", "{} {0} %s", "G1 X9", "é✓  ", "tail\x85"]
 
 
 def C(method, *args, **kwargs):
